@@ -1,4 +1,4 @@
-// Counterexample found by mirsym/z3 for property C22, template hooks_balance_after_reify_mixed: |x, y, z| { q == [x, z], z != p0, infd([x, y], &[1, 2]), distinctfd([x, y]), x == 1 } with parameters [-3]: engine answer 0 is not a reference answer (or is returned too often): the ground instance q = [[1, []], 1] is an instance of an engine answer but not a solution
+// Counterexample found by mirsym/z3 for property C22, template hooks_balance_after_reify_mixed: |x, y, z| { q == [x, z], z != p0, infd([x, y], &[1, 2]), distinctfd([x, y]), x == 1 } with parameters [-3]: engine answer 0 is not a reference answer (or is returned too often): the ground instance q = [[1, []], -1] is an instance of an engine answer but not a solution
 // Replay: /verif/check C22 --replay /verif/replay/cases/C22-hooks_balance_after_reify_mixed_spurious.rs
 #![allow(unused_imports, unused_variables, unused_mut, dead_code)]
 use proto_vulcan::prelude::*;
@@ -82,7 +82,7 @@ fn replay() {
     let q: TC = LTerm::var("q");
     let goal: Goal<CntUser, CE> = proto_vulcan!([
         |x, y, z| { q == [x, z], z != p0, infd([x, y], &[1, 2]), distinctfd([x, y]), x == 1 },
-        q == [[1, []], 1],
+        q == [[1, []], -1],
         proto_vulcan::state::reify(q.clone())
     ]);
     let mut solver: Solver<CntUser, CE> = Solver::new((), false);
@@ -92,5 +92,5 @@ fn replay() {
         let s = format!("[{}, {}]", st.smap_ref().walk_star(&q), bal); let mut o = String::new(); let mut it = s.chars().peekable();
         while let Some(c) = it.next() { o.push(c); if c == '_' { if it.peek() == Some(&'.') { it.next(); while it.peek().map_or(false, |d| d.is_ascii_digit()) { it.next(); } } } }
         got.push(o) } None => break } }
-    assert_eq!(got.len() > 0, false, "q = [[1, []], 1] must not be a solution");
+    assert_eq!(got.len() > 0, false, "q = [[1, []], -1] must not be a solution");
 }
